@@ -68,6 +68,35 @@ def parse_step_reply(net, rep):
     return flows, stock
 
 
+def _link_scales(net, stock_now):
+    """magnitude of the quantities a link value is computed from: the source stock; junction out-links inherit their in-links'"""
+    kinds = net["kinds"]
+    nL = len(net["links"])
+    lscale = [0.0] * nL
+    for l in range(nL):
+        if kinds[net["src"][l]] not in "jr":
+            lscale[l] = max(1.0, sum(abs(v) for v in stock_now[net["src"][l]]))
+    for j in net["jorder"]:
+        sj = sum(lscale[l2] for l2 in range(nL) if net["dst"][l2] == j)
+        for l in range(nL):
+            if net["src"][l] == j:
+                lscale[l] = max(1.0, sj)
+    return lscale
+
+
+def _zero_sum_junctions(net, ti):
+    """plain junctions whose proportions sum to exactly 0 at index ti: there the branch `inflow == 0` (fix fc608db) decides
+    between "all outflows 0" and NaN; an inflow within rounding of 0 may send code and exact model down different branches"""
+    out = []
+    nL = len(net["links"])
+    for c, k in enumerate(net["kinds"]):
+        if k == "j":
+            outs = [l for l in range(nL) if net["src"][l] == c]
+            if outs and all(net["links"][l].parameter is not None for l in outs) and sum(float(net["links"][l].parameter.vals[ti]) for l in outs) == 0:
+                out.append(c)
+    return out
+
+
 def compare_trace(ctx, spec, m, net, label):
     """Mode B over every step of one processed model. Returns list of break dicts (stage, t, what)."""
     T = len(m.t)
@@ -91,6 +120,25 @@ def compare_trace(ctx, spec, m, net, label):
                 ctx.count("step.model_undefined")
                 # model undefined (sum of proportions 0 at a plain junction): implementation must show NaN/inf on a junction link
                 bad = any(not all(math.isfinite(v) for v in impl_fl[l]) for l in range(len(impl_fl)) if kinds[net["src"][l]] in "jr")
+                zeroj = [] if bad else _zero_sum_junctions(net, ti)
+                if zeroj:
+                    # implementation saw an inflow of exactly 0 (underflow) and sent 0; is the exact inflow within rounding of 0?
+                    # ask the model with the proportions of those junctions set to 1 (they drive nothing else)
+                    stock_now = genfw.snapshot_stock(m, ti)
+                    lscale = _link_scales(net, stock_now)
+                    pv = genfw.pv_at(net, ti)
+                    for z in zeroj:
+                        for l in range(len(impl_fl)):
+                            if net["src"][l] == z:
+                                pv[net["par"][l]] = 1.0
+                    rq = f"estep {genfw.net_tokens(net)} {q(m.dt)} " + " ".join(q(v) for v in pv) + " " + " ".join(q(v) for rows in stock_now for v in rows)
+                    p2 = parse_step_reply(net, core.drive([rq])[0])
+                    if not isinstance(p2, str) and all(
+                            abs(float(sum((sum(p2[0][l], Fraction(0)) for l in range(len(impl_fl)) if net["dst"][l] == z), Fraction(0))))
+                            <= ATOL * max(1.0, sum(lscale[l] for l in range(len(impl_fl)) if net["dst"][l] == z)) for z in zeroj):
+                        ctx.ambiguous += 1
+                        ctx.count("step.ambiguous_zero_inflow")
+                        continue
                 if not bad:
                     breaks.append({"stage": "nan", "t": ti, "what": "model step undefined (division by zero at a junction) but implementation flows are all finite"})
                 continue
@@ -113,7 +161,20 @@ def compare_trace(ctx, spec, m, net, label):
             for l in range(len(mfl)):
                 if net["src"][l] == j:
                     lscale[l] = max(1.0, sj)
+        # the reverse ambiguity: exact inflow 0 (model: outflows 0) but rounding dust flows in in the implementation (NaN out-links)
+        zamb = set()
+        for z in _zero_sum_junctions(net, ti):
+            outs = [l for l in range(len(mfl)) if net["src"][l] == z]
+            inn = sum(sum(impl_fl[l]) for l in range(len(mfl)) if net["dst"][l] == z)
+            if (math.isfinite(inn) and inn != 0 and abs(inn) <= ATOL * max(1.0, sum(lscale[l] for l in range(len(mfl)) if net["dst"][l] == z))
+                    and all(not math.isfinite(v) for l in outs for v in impl_fl[l]) and all(v == 0 for l in outs for v in mfl[l])):
+                zamb.add(z)
+        if zamb:
+            ctx.ambiguous += 1
+            ctx.count("step.ambiguous_zero_inflow")
         for l, (mrow, irow) in enumerate(zip(mfl, impl_fl)):
+            if net["src"][l] in zamb:
+                continue
             if net["tlink"][l]:
                 pairs = list(zip(mrow, irow)) if len(mrow) == len(irow) else None
                 if pairs is None:
@@ -140,8 +201,8 @@ def compare_trace(ctx, spec, m, net, label):
                         break
             breaks.append({"stage": stage, "t": ti, "what": first[1]})
             continue
-        # ---- next stock
-        if ti + 1 < T:
+        # ---- next stock (skipped when the implementation's NaN branch was accepted as ambiguous: the NaN reaches the stocks)
+        if ti + 1 < T and not zamb:
             nxt = genfw.snapshot_stock(m, ti + 1)
             for c, (mrow, irow) in enumerate(zip(mst, nxt)):
                 cscale = max(1.0, sum(abs(v) for v in stock_now[c])) + sum(lscale[l2] for l2 in range(len(mfl)) if net["dst"][l2] == c)
